@@ -264,6 +264,22 @@ func init() {
 			}
 			return TupleV{SliceV{}, ex.ctx.False}
 		},
+		"verif:verifWatchMap": func(ex *Exec, st *State, fn *ssa.Function, args []Value) Value {
+			iv := args[0].(IfaceV)
+			m, ok := iv.V.(MapV)
+			if !ok {
+				throwf("verifWatchMap: map expected")
+			}
+			w := map[int]bool{m.Obj: true}
+			mo := ex.mapObj(st, m)
+			for _, v := range mo.Vals {
+				if inner, ok := v.(MapV); ok {
+					w[inner.Obj] = true
+				}
+			}
+			st.watched = w
+			return nil
+		},
 		"verif:verifMapDesc": func(ex *Exec, st *State, fn *ssa.Function, args []Value) Value {
 			return ex.ctx.Bool(ex.cfg.MapDesc)
 		},
